@@ -151,6 +151,9 @@ func builtinDateBeforeSetFrom(call FunctionCall, argumentLimit int, timeLocal, z
 	}
 	if date.isNaN {
 		if !zeroIfNaN || invalid {
+			// Converting the arguments may have run script that set a time:
+			// the result of the setter is NaN and so is the stored value.
+			obj.value = invalidDateObject
 			return nil, nil, nil, nil
 		}
 		location := time.UTC
